@@ -68,6 +68,24 @@ func evalPure(op string) (ans string) {
 		return hx(fsnotify.VerifMakeEvent(b(2), fsnotify.Op(u(1)), b(3)).String())
 	case "inotifyop":
 		return fmt.Sprintf("%x", uint32(fsnotify.VerifNewEventer().NewEvent("n", u(1), 0).Op))
+	case "reqseq": // three AddWith calls on one path with different op sets: the kernel's mask after each
+		var ans []string
+		w := pureWatcher()
+		for _, x := range f[1:] {
+			ops, _ := strconv.ParseUint(x, 16, 32)
+			if err := w.AddWith(pureFile, fsnotify.VerifWithOps(fsnotify.Op(ops))); err != nil {
+				ans = append(ans, "ERR")
+				continue
+			}
+			snap := fsnotify.VerifTables(w)
+			if len(snap.Wd) != 1 {
+				ans = append(ans, "BAD-TABLE")
+				continue
+			}
+			ans = append(ans, fmt.Sprintf("%x", kernelMask(snap.Fd, snap.Wd[0].Wd)))
+		}
+		w.Remove(pureFile)
+		return strings.Join(ans, ",")
 	case "request":
 		return evalRequest(f[1] == "1", u(2))
 	case "xsupports":
@@ -204,6 +222,13 @@ func pureC15(r *rec, g *rng, thorough bool) {
 		for ops := uint32(0); ops < 512; ops++ {
 			r.emitP("request", fmt.Sprintf("request %d %x", nf, ops))
 		}
+	}
+	nseq := 150 // what several AddWith calls on ONE path subscribe to: the union, whatever the order
+	if thorough {
+		nseq = 3000
+	}
+	for i := 0; i < nseq; i++ {
+		r.emitP("reqseq", fmt.Sprintf("reqseq %x %x %x", 1+g.intn(511), 1+g.intn(511), 1+g.intn(511)))
 	}
 	for i := 0; i < 200; i++ { // undefined bits are ignored
 		r.emitP("request", fmt.Sprintf("request 0 %x", g.u32()))
